@@ -300,6 +300,12 @@ def obligations(tier):
     for c in cases:
         tag = "-".join(f"{k}={'+'.join(map(str, v)) if isinstance(v, list) else v}" for k, v in c.items() if k not in ("charge_marker",))
         obs.append(Obligation(f"atom_site-{tag}", h_atom_site, c, group="atom_site", time_cap=1500))
+    # the PQR written for an mmCIF input drops the TER bookkeeping records and nothing else: every atom line survives,
+    # whatever its atom / residue name (a naming scheme may call a residue "TER"); C08's writer harness with is_cif=True
+    from . import c08
+
+    for ws in (False, True):
+        obs.append(Obligation(f"cif-output-keeps-atom-lines-{'ws' if ws else 'fixed'}", c08.h_roundtrip, dict(focus=["name", "res_name"], rtype="ATOM", ws=ws, kc=False, name_len=3, res_len=3, is_cif=True), group="cif-output", time_cap=1500, max_paths=100000))
     for n in (3,) if tier == "quick" else (1, 2, 3, 4):
         obs.append(Obligation(f"dispatch-suffix-{n}-chars", h_dispatch, dict(nchars=n), group="dispatch", time_cap=1500, max_paths=200000))
     return obs
